@@ -46,7 +46,7 @@ int sim_tier_scale(void)
 /* ------------------------------------------------------------------ plan */
 const char *fo_names[FO_NMAX] = { "FULL", "SHORT", "EINTR", "EAGAIN", "EIO", "EMFILE", "ENOENT",
                                   "ECONNREFUSED", "ECONNABORTED", "EADDRINUSE", "EPIPE", "EACCES" };
-const char *fc_names[8] = { "?", "read", "write", "accept", "close", "open", "connect", "socket" };
+const char *fc_names[FC_NMAX] = { "?", "read", "write", "accept", "close", "open", "connect", "socket", "bind", "listen", "?", "?" };
 
 void plan_init(plan_t *p, const char *prop, uint64_t seed)
 {
@@ -247,7 +247,7 @@ void tr_u64(const char *tag, uint64_t v) { tr_printf("%s=%llu", tag, (unsigned l
 #define MAXPROBES 128
 static struct { const char *name; uint64_t n; } probes[MAXPROBES];
 static int nprobes;
-static uint64_t fault_cnt[8][FO_NMAX];
+static uint64_t fault_cnt[FC_NMAX][FO_NMAX];
 static uint64_t total_runs, total_ops, total_steps, total_simus, total_skips;
 
 void probe_add(const char *name, uint64_t n)
@@ -256,12 +256,12 @@ void probe_add(const char *name, uint64_t n)
     if (nprobes < MAXPROBES) { probes[nprobes].name = name; probes[nprobes++].n = n; }
 }
 void probe_hit(const char *name) { probe_add(name, 1); }
-void fault_fired(int call, int outcome) { if (call < 8 && outcome < FO_NMAX) fault_cnt[call][outcome]++; }
+void fault_fired(int call, int outcome) { if (call < FC_NMAX && outcome < FO_NMAX) fault_cnt[call][outcome]++; }
 
 int fault_next(int call)
 {
     op_t *o = R.cur_op;
-    if (!o || call >= 8) return -1;
+    if (!o || call >= FC_NMAX) return -1;
     for (int i = o->fpos[call]; i < o->nf; i++) {
         if (F_CALL(o->f[i]) == call) { o->fpos[call] = i + 1; return o->f[i]; }
     }
@@ -278,7 +278,7 @@ static void print_stats(void)
            (unsigned long long)sa_stat_moves, (unsigned long long)sa_stat_inplace, (unsigned long long)sa_stat_reuses,
            (unsigned long long)sa_stat_allocs, (unsigned long long)sa_stat_frees, (unsigned long long)R.oos_memory_reports);
     for (int i = 0; i < nprobes; i++) printf(" P:%s=%llu", probes[i].name, (unsigned long long)probes[i].n);
-    for (int c = 1; c < 8; c++) for (int o = 0; o < FO_NMAX; o++)
+    for (int c = 1; c < FC_NMAX; c++) for (int o = 0; o < FO_NMAX; o++)
         if (fault_cnt[c][o]) printf(" F:%s.%s=%llu", fc_names[c], fo_names[o], (unsigned long long)fault_cnt[c][o]);
     printf("\n");
     fflush(stdout);
